@@ -228,7 +228,23 @@ def search_scope_rules(F, res):
     for b in single:
         sig = FL.guard_signature(F, ss, b, dss)
         if not any("['Local']" in g for g in sig):
-            local_only = False
+            # `matches!(self, Definition::Local(_))`: the test result is a bool assigned under the discriminant; follow the
+            # constants: with every edge `discriminant == Local` removed the call must be unreachable
+            names = FL.enum_names(F, "ide::def::semantics::Definition") or {}
+            loc = [k for k, v in names.items() if v == "Local"]
+
+            def forbid(x, y, loc=loc):
+                t_ = ss.term(x)
+                if t_.get("k") != "switch" or not loc:
+                    return False
+                o_ = dss.origin_op(t_["op"])
+                if o_.get("k") == "rv" and o_["rv"].get("k") == "discr" and (o_["rv"].get("of") or "").endswith("Definition"):
+                    hit = [tb for v, tb in t_["targets"] if v == loc[0]]
+                    tgt = hit[0] if hit else t_["otherwise"]
+                    return y == tgt
+                return False
+            if not loc or FL.reachable_following_constants(ss, 0, [b], forbid=forbid):
+                local_only = False
     res.ob("R5", "search_scope/whole-graph-unless-local", "a definition is searched in the whole package graph unless it is a local (then: its file)",
            set(made) <= {"SearchScope::empty", "SearchScope::single_file", "SearchScope::package_graph"} and "SearchScope::package_graph" in made and local_only,
            where=ss.loc(), how="scopes built: %s; single_file only for locals: %s" % (made, local_only))
